@@ -8,14 +8,18 @@ package main
 
 import (
 	"bufio"
+	"bytes"
 	"encoding/json"
 	"flag"
 	"fmt"
 	"os"
+	"os/exec"
 	"path/filepath"
+	"runtime"
 	"sort"
 	"strconv"
 	"strings"
+	"sync"
 	"time"
 
 	"verif/mc/drv"
@@ -78,6 +82,8 @@ func main() {
 	replay := flag.String("replay", "", "replay file")
 	budget := flag.Int("budget", 0, "wall-clock budget in seconds (0: tier default)")
 	sub := flag.String("sub", "", "internal: run the sub mode of a property in this (tagged) build and print JSON")
+	shardS := flag.String("shard", "", "internal: i/n - explore only every n-th subtree and print a JSON report")
+	procs := flag.Int("procs", 0, "number of shard processes (default: number of CPUs)")
 	flag.CommandLine.Parse(reorder(os.Args[1:]))
 	if *sub != "" {
 		f, ok := props.SubModes[*sub]
@@ -132,13 +138,47 @@ func main() {
 		os.Exit(0)
 	}
 	var specialErr error
-	if chk.Special != nil {
+	if *shardS != "" {
+		// child: explore one shard, print a JSON report, exit
+		var shard, nshard int
+		fmt.Sscanf(*shardS, "%d/%d", &shard, &nshard)
+		if chk.Special != nil && chk.SpecialSharded {
+			props.Shard, props.NShard = shard, nshard
+			specialErr = chk.Special(tier, total)
+		}
+		spStates, spNT := total.States, total.NonTrivial
+		states, nts := map[uint64]struct{}{}, map[uint64]struct{}{}
+		for _, sc := range chk.Scenarios {
+			rep := engine.Explore(sc, engine.Options{Deadline: deadline, Workers: 1, Shard: shard, NShard: nshard,
+				Signature: func(f *engine.Found) string { return signature(id, f) }})
+			merge(total, rep)
+			for k := range rep.StateSet {
+				states[hashMix(k, sc.Name)] = struct{}{}
+			}
+			for k := range rep.NTSet {
+				nts[hashMix(k, sc.Name)] = struct{}{}
+			}
+		}
+		if specialErr != nil {
+			total.Exhaustive = false
+			total.PerConfig = append(total.PerConfig, "HARNESS ERROR: "+specialErr.Error())
+		}
+		out := childReport{Report: total, States: keys(states), NT: keys(nts), SpStates: spStates, SpNT: spNT}
+		b, _ := json.Marshal(&out)
+		os.Stdout.Write(b)
+		os.Exit(0)
+	}
+	if chk.Special != nil && !chk.SpecialSharded {
 		specialErr = chk.Special(tier, total)
 	}
-	for _, sc := range chk.Scenarios {
-		rep := engine.Explore(sc, engine.Options{Deadline: deadline, Progress: os.Getenv("VERIF_PROGRESS") != "",
-			Signature: func(f *engine.Found) string { return signature(id, f) }})
-		merge(total, rep)
+	if len(chk.Scenarios) > 0 || (chk.Special != nil && chk.SpecialSharded) {
+		n := *procs
+		if n <= 0 {
+			n = runtime.NumCPU()
+		}
+		if err := runShards(id, *tierS, *budget, n, total); err != nil && specialErr == nil {
+			specialErr = err
+		}
 	}
 	if specialErr != nil {
 		fmt.Fprintf(os.Stderr, "harness error (no verdict): %v\n", specialErr)
@@ -149,7 +189,20 @@ func main() {
 	known := loadKnown()
 	var violations []engine.Found
 	knownHit := map[string]int{}
-	sort.Slice(total.Found, func(i, j int) bool { return len(total.Found[i].Hist) < len(total.Found[j].Hist) })
+	sort.SliceStable(total.Found, func(i, j int) bool { return len(total.Found[i].Hist) < len(total.Found[j].Hist) })
+	{
+		// shards report the same signature independently: keep the shortest history of each
+		seenSig := map[string]bool{}
+		var uniq []engine.Found
+		for _, f := range total.Found {
+			sg := signature(id, &f) + "|" + f.Scenario
+			if !seenSig[sg] {
+				seenSig[sg] = true
+				uniq = append(uniq, f)
+			}
+		}
+		total.Found = uniq
+	}
 	for _, f := range total.Found {
 		sig := signature(id, &f)
 		matched := false
@@ -214,6 +267,98 @@ func reorder(args []string) []string {
 		}
 	}
 	return append(flags, pos...)
+}
+
+type childReport struct {
+	Report   *engine.Report
+	States   []uint64
+	NT       []uint64
+	SpStates int64
+	SpNT     int64
+}
+
+func keys(m map[uint64]struct{}) []uint64 {
+	out := make([]uint64, 0, len(m))
+	for k := range m {
+		out = append(out, k)
+	}
+	return out
+}
+
+func hashMix(k uint64, name string) uint64 {
+	h := uint64(1469598103934665603)
+	for i := 0; i < len(name); i++ {
+		h = (h ^ uint64(name[i])) * 1099511628211
+	}
+	return k ^ h
+}
+
+// runShards re-executes this binary n times with GOMAXPROCS=1 (process-level sharding is
+// ~16x faster than goroutines here: the workload is allocation/GC bound) and merges the reports.
+func runShards(id, tier string, budget, n int, total *engine.Report) error {
+	self, err := os.Executable()
+	if err != nil {
+		return err
+	}
+	outs := make([][]byte, n)
+	errs := make([]error, n)
+	var wg sync.WaitGroup
+	for i := 0; i < n; i++ {
+		wg.Add(1)
+		go func(i int) {
+			defer wg.Done()
+			cmd := exec.Command(self, id, "--tier", tier, "--budget", strconv.Itoa(budget), "--shard", fmt.Sprintf("%d/%d", i, n))
+			cmd.Env = append(os.Environ(), "GOMAXPROCS=1")
+			var stderr bytes.Buffer
+			cmd.Stderr = &stderr
+			outs[i], errs[i] = cmd.Output()
+			if errs[i] != nil {
+				errs[i] = fmt.Errorf("shard %d: %v: %s", i, errs[i], tailStr(stderr.String(), 2000))
+			}
+		}(i)
+	}
+	wg.Wait()
+	states, nts := map[uint64]struct{}{}, map[uint64]struct{}{}
+	perCfg := map[string]bool{}
+	for i := 0; i < n; i++ {
+		if errs[i] != nil {
+			return errs[i]
+		}
+		var cr childReport
+		if err := json.Unmarshal(outs[i], &cr); err != nil || cr.Report == nil {
+			return fmt.Errorf("shard %d: unreadable report: %v", i, err)
+		}
+		r := cr.Report
+		pc := r.PerConfig
+		r.PerConfig = nil
+		r.States, r.NonTrivial = cr.SpStates, cr.SpNT
+		merge(total, r)
+		for _, l := range pc {
+			// per-config lines of shards differ in counts; keep shard 0's plus any anomaly lines
+			if i == 0 || strings.Contains(l, "DEADLINE") || strings.Contains(l, "HARNESS") || strings.Contains(l, "HANG") {
+				if !perCfg[l] {
+					perCfg[l] = true
+					total.PerConfig = append(total.PerConfig, fmt.Sprintf("[shard %d/%d] %s", i, n, l))
+				}
+			}
+		}
+		for _, k := range cr.States {
+			states[k] = struct{}{}
+		}
+		for _, k := range cr.NT {
+			nts[k] = struct{}{}
+		}
+	}
+	total.States += int64(len(states))
+	total.NonTrivial += int64(len(nts))
+	return nil
+}
+
+func tailStr(s string, n int) string {
+	if len(s) > n {
+		return s[len(s)-n:]
+	}
+	return s
 }
 
 func merge(t, r *engine.Report) {
